@@ -33,6 +33,17 @@ class Reached(Exception):
 
 
 def build(I, kind, n, tag):
+    if kind == "expanded":
+        # the merged-text view: a Text node followed by a CDATA section, seen as one character-data node
+        s, c = K.sym_str(tag, n)
+        h = n // 2
+        t_info = K.mk_obj("XmlText", K.INFO, text=SStr(s[:h]), parent_id=NONE, context="ctx")
+        c_info = K.mk_obj("XmlCData", K.INFO, data=SStr(s[h:]), parent_id=NONE, context="ctx")
+        nodes = SVec([K.mk_enum("XmlNode", K.DOM, "Text", K.mk_obj("XmlText", K.DOM, data=t_info)),
+                      K.mk_enum("XmlNode", K.DOM, "CData", K.mk_obj("XmlCDataSection", K.DOM, data=c_info))])
+        dom = K.mk_obj("XmlExpandedText", K.DOM, data=nodes)
+        holder = K.mk_obj("Holder", None, all=s)
+        return dom, holder, s, c
     domt, infot, field, bad = KINDS[kind]
     s, c = K.sym_str(tag, n)
     info = K.mk_obj(infot, K.INFO, **{field: s, "parent_id": NONE, "context": "ctx"})
@@ -124,7 +135,7 @@ def work(job):
     out = {"job": job[:5], "queries": 0, "paths": 0, "status": "holds", "error": None, "wall": 0.0}
     t0 = time.time()
     try:
-        domt, infot, field, bad = KINDS[kind]
+        domt, infot, field, bad = KINDS[kind] if kind != "expanded" else ("XmlExpandedText", "Holder", "all", "<&]>")
         o = z3.BitVec("offset", 64) if method in ("substring_data", "insert_data", "delete_data", "replace_data", "split_text") else None
         c = z3.BitVec("count", 64) if method in ("substring_data", "delete_data", "replace_data") else None
         has_arg = method in ("insert_data", "replace_data", "append_data", "set_data")
@@ -362,7 +373,7 @@ def main():
     timeout_s = 120 if args.tier == "quick" else 900
     rep.bounds = {"content_len": "0..%d scalar values, every Unicode Char the factories accept" % Kn, "offset_count": "any 64-bit value",
                   "argument_len": "0..%d" % M, "profiles": ["debug (overflow panics)", "release (wraps)"],
-                  "outside": "the sibling insertion of split_text (item graph); longer contents; XmlExpandedText"}
+                  "outside": "the sibling insertion of split_text (item graph); longer contents; entity references inside the merged-text view"}
     rep.assumptions += [
         "std models of engine/sx/kstd.py (chars/collect/skip/take/split_off/drain/append, saturating_*, usize arithmetic with overflow per profile)",
         "the `check` closures call the real nom productions through the S-grammar (content, comment, cdsect)",
@@ -391,6 +402,11 @@ def main():
                     ms = range(0, M + 1) if method in ("insert_data", "replace_data", "append_data", "set_data") else [0]
                     for m in ms:
                         jobs.append((kind, method, n, m, profile, timeout_s))
+    # the merged-text view (XmlExpandedText): read-only operations
+    for method in ("length", "substring_data"):
+        for profile in ("debug", "release"):
+            for n in range(0, Kn + 2):
+                jobs.append(("expanded", method, n, 0, profile, timeout_s))
     with mp.Pool(args.jobs) as pool:
         results = pool.map(work, jobs, chunksize=1)
     rp_rel = None
